@@ -4,8 +4,9 @@
     [loop] is the [while self.__rx_buf:] loop: stop on an empty buffer; probe
     the buffer in the phase the handler state is in; "partial" ([None]) leaves
     state and buffer untouched; a complete frame is handed to the handler and
-    the loop continues on the octets the probe left over.  [recv] is one call
-    of [recv_raw(chunk)] ("always append", then loop).
+    the loop continues on the octets the probe left over; the loop also stops
+    as soon as the handler has closed the connection ([alive s = false]).
+    [recv] is one call of [recv_raw(chunk)] ("always append", then loop).
 
     From two contract properties of the probe
       [probe_shrinks] a complete frame consumes at least one octet
@@ -26,6 +27,7 @@ Section Framing.
   Variable St : Type.                 (* handler state *)
   Variable frame : Type.
   Variable phase : St -> bool.
+  Variable alive : St -> bool.        (* the connection is still open *)
   Variable probe : bool -> list byte -> option (frame * list byte).
   Variable handle : St -> frame -> St.
 
@@ -39,10 +41,12 @@ Section Framing.
       match buf with
       | [] => (s, buf)
       | _ :: _ =>
-        match probe (phase s) buf with
-        | None => (s, buf)
-        | Some (f, r) => loop fuel' (handle s f) r
-        end
+        if alive s then
+          match probe (phase s) buf with
+          | None => (s, buf)
+          | Some (f, r) => loop fuel' (handle s f) r
+          end
+        else (s, buf)
       end
     end.
 
@@ -56,6 +60,7 @@ Section Framing.
     induction f1 as [|f1 IH]; intros f2 s buf H1 H2; [lia|].
     destruct f2 as [|f2]; [lia|]. cbn [loop].
     destruct buf as [|x buf]; [reflexivity|].
+    destruct (alive s); [|reflexivity].
     destruct (probe (phase s) (x :: buf)) as [[f r]|] eqn:P; [|reflexivity].
     pose proof (probe_shrinks _ _ _ _ P) as L.
     apply IH; lia.
@@ -69,10 +74,11 @@ Section Framing.
     induction fuel as [|fuel IH]; intros s buf ext s' r Hf E; [lia|].
     cbn [loop] in E. destruct buf as [|x buf].
     - inversion E; subst. reflexivity.
-    - destruct (probe (phase s) (x :: buf)) as [[f r1]|] eqn:P.
+    - destruct (alive s) eqn:A; [|inversion E; subst; reflexivity].
+      destruct (probe (phase s) (x :: buf)) as [[f r1]|] eqn:P.
       + pose proof (probe_shrinks _ _ _ _ P) as L.
         pose proof (probe_stable _ _ ext _ _ P) as P'.
-        cbn [loop]. cbn [app] in *. rewrite P'.
+        cbn [loop]. cbn [app] in *. rewrite A, P'.
         rewrite (loop_fuel (length (x :: buf ++ ext)) (S (length (r1 ++ ext)))).
         * apply IH with (buf := r1); [lia|exact E].
         * cbn [length] in *. rewrite !app_length. lia.
@@ -115,9 +121,11 @@ Section Framing.
     induction fuel as [|fuel IH]; intros s buf s' r Hf E; [lia|].
     cbn [loop] in E. destruct buf as [|x buf].
     - inversion E; subst. reflexivity.
-    - destruct (probe (phase s) (x :: buf)) as [[f r1]|] eqn:P.
-      + pose proof (probe_shrinks _ _ _ _ P) as L. apply IH with (s := handle s f) (buf := r1); [lia|exact E].
-      + inversion E; subst. unfold recv. cbn [fst snd]. rewrite app_nil_r. cbn [loop]. rewrite P. reflexivity.
+    - destruct (alive s) eqn:A.
+      + destruct (probe (phase s) (x :: buf)) as [[f r1]|] eqn:P.
+        * pose proof (probe_shrinks _ _ _ _ P) as L. apply IH with (s := handle s f) (buf := r1); [lia|exact E].
+        * inversion E; subst. unfold recv. cbn [fst snd]. rewrite app_nil_r. cbn [loop]. rewrite A, P. reflexivity.
+      + inversion E; subst. unfold recv. cbn [fst snd]. rewrite app_nil_r. cbn [loop]. rewrite A. reflexivity.
   Qed.
 
   Lemma recv_idem : forall st c, recv (recv st c) [] = recv st c.
@@ -141,11 +149,12 @@ Section Framing.
   Hypothesis probe_prefix : forall ph f q q', accepts ph f -> encode f = q ++ q' -> q' <> [] -> probe ph q = None.
 
   (** The frame sequence is legal for the handler: each frame is accepted in
-      the phase the handler is in when it arrives. *)
+      the phase the handler is in when it arrives, and the handler has not
+      closed the connection before it arrives. *)
   Fixpoint consistent (s : St) (fs : list frame) : Prop :=
     match fs with
     | [] => True
-    | f :: fs' => accepts (phase s) f /\ consistent (handle s f) fs'
+    | f :: fs' => alive s = true /\ accepts (phase s) f /\ consistent (handle s f) fs'
     end.
 
   Lemma encode_nonempty : forall ph f, accepts ph f -> encode f <> [].
@@ -169,12 +178,12 @@ Section Framing.
   Proof.
     induction fs as [|f fs IH]; intros s C.
     - reflexivity.
-    - destruct C as [A C]. cbn [map concat fold_left].
+    - destruct C as (AL & A & C). cbn [map concat fold_left].
       pose proof (encode_nonempty _ _ A) as NE.
       unfold recv. cbn [fst snd app]. cbn [loop].
       destruct (encode f ++ concat (map encode fs)) as [|x l] eqn:E.
       { destruct (encode f); [congruence|discriminate]. }
-      rewrite <- E. rewrite (probe_encode _ _ _ A).
+      rewrite <- E. rewrite AL, (probe_encode _ _ _ A).
       specialize (IH _ C). unfold recv in IH. cbn [fst snd app] in IH.
       rewrite <- IH. apply loop_fuel.
       + rewrite E, <- E. rewrite app_length. destruct (encode f); [congruence|]. cbn [length]. lia.
@@ -188,11 +197,11 @@ Section Framing.
     recv (s, []) (concat (map encode fs1) ++ q) = (fold_left handle fs1 s, q).
   Proof.
     intros fs1 f fs2 s q q' C E NE.
-    apply consistent_app in C. destruct C as [C1 [A _]].
+    apply consistent_app in C. destruct C as [C1 (_ & A & _)].
     rewrite <- recv_recv. rewrite (stream_theorem _ _ C1).
     unfold recv. cbn [fst snd app]. cbn [loop].
     destruct q as [|x q]; [reflexivity|].
-    rewrite (probe_prefix _ _ _ _ A E NE). reflexivity.
+    rewrite (probe_prefix _ _ _ _ A E NE). destruct (alive (fold_left handle fs1 s)); reflexivity.
   Qed.
 
   (** The same, for any way of cutting the received octets into reads. *)
@@ -222,27 +231,30 @@ Section Logging.
   Variable St : Type.
   Variable frame : Type.
   Variable phase : St -> bool.
+  Variable alive : St -> bool.
   Variable probe : bool -> list byte -> option (frame * list byte).
   Variable handle : St -> frame -> St.
 
+  Definition lalive (sl : St * list frame) : bool := alive (fst sl).
   Definition lphase (sl : St * list frame) : bool := phase (fst sl).
   Definition lhandle (sl : St * list frame) (f : frame) : St * list frame :=
     (handle (fst sl) f, snd sl ++ [f]).
 
-  Definition lrecv := recv byte (St * list frame) frame lphase probe lhandle.
-  Definition precv := recv byte St frame phase probe handle.
+  Definition lrecv := recv byte (St * list frame) frame lphase lalive probe lhandle.
+  Definition precv := recv byte St frame phase alive probe handle.
 
   (** Logging does not disturb the handler ... *)
   Lemma lloop_sim : forall fuel s log buf,
-    fst (fst (loop byte (St * list frame) frame lphase probe lhandle fuel (s, log) buf))
-      = fst (loop byte St frame phase probe handle fuel s buf)
-    /\ snd (loop byte (St * list frame) frame lphase probe lhandle fuel (s, log) buf)
-      = snd (loop byte St frame phase probe handle fuel s buf).
+    fst (fst (loop byte (St * list frame) frame lphase lalive probe lhandle fuel (s, log) buf))
+      = fst (loop byte St frame phase alive probe handle fuel s buf)
+    /\ snd (loop byte (St * list frame) frame lphase lalive probe lhandle fuel (s, log) buf)
+      = snd (loop byte St frame phase alive probe handle fuel s buf).
   Proof.
     induction fuel as [|fuel IH]; intros s log buf; cbn [loop].
     - split; reflexivity.
     - destruct buf as [|x buf]; [split; reflexivity|].
-      unfold lphase. cbn [fst].
+      unfold lphase, lalive. cbn [fst].
+      destruct (alive s); [|split; reflexivity].
       destruct (probe (phase s) (x :: buf)) as [[f r]|]; [|split; reflexivity].
       change (lhandle (s, log) f) with (handle s f, log ++ [f]). apply IH.
   Qed.
@@ -256,11 +268,12 @@ Section Logging.
 
   (** ... and the log only grows. *)
   Lemma lloop_mono : forall fuel s log buf,
-    exists more, snd (fst (loop byte (St * list frame) frame lphase probe lhandle fuel (s, log) buf)) = log ++ more.
+    exists more, snd (fst (loop byte (St * list frame) frame lphase lalive probe lhandle fuel (s, log) buf)) = log ++ more.
   Proof.
     induction fuel as [|fuel IH]; intros s log buf; cbn [loop].
     - exists []. rewrite app_nil_r. reflexivity.
     - destruct buf as [|x buf]; [exists []; rewrite app_nil_r; reflexivity|].
+      destruct (lalive (s, log)); [|exists []; rewrite app_nil_r; reflexivity].
       destruct (probe (lphase (s, log)) (x :: buf)) as [[f r]|]; [|exists []; rewrite app_nil_r; reflexivity].
       change (lhandle (s, log) f) with (handle s f, log ++ [f]).
       destruct (IH (handle s f) (log ++ [f]) r) as [more E]. exists (f :: more).
